@@ -47,6 +47,9 @@ pub struct RefPoint {
     /// the under-specified corner: Cartesian built from a spherical *direction*; Invalid is accepted too
     pub cart_from_sph_dir: bool,
     pub sph_from_cart_dir: bool,
+    /// the Cartesian value is the stored one itself (not converted, no pose applied): it must come
+    /// back unchanged even if a component is not finite
+    pub cart_stored: bool,
     pub color: Option<[f32; 3]>,
     pub intensity: Option<f32>,
     pub row: i64,
@@ -177,12 +180,17 @@ pub fn view(raw: &[Val], proto: &[Rec], meta: &m::CloudMeta, o: &Opts) -> Result
     let col = idx("columnIndex").map(ival).unwrap_or(-1);
     let mut cart_from_sph_dir = false;
     let mut sph_from_cart_dir = false;
+    let mut cart_stored = !matches!(cart, RC::Invalid);
     if o.s2c && !matches!(cart, RC::Valid(..)) {
         match sph {
-            RS::Valid(r, az, el) => cart = RC::Valid(r * el.cos() * az.cos(), r * el.cos() * az.sin(), r * el.sin()),
+            RS::Valid(r, az, el) => {
+                cart = RC::Valid(r * el.cos() * az.cos(), r * el.cos() * az.sin(), r * el.sin());
+                cart_stored = false;
+            }
             RS::Dir(az, el) if !matches!(cart, RC::Dir(..)) => {
                 cart = RC::Dir(el.cos() * az.cos(), el.cos() * az.sin(), el.sin());
                 cart_from_sph_dir = true;
+                cart_stored = false;
             }
             _ => {}
         }
@@ -212,6 +220,7 @@ pub fn view(raw: &[Val], proto: &[Rec], meta: &m::CloudMeta, o: &Opts) -> Result
             // v' = v + 2w (q x v) + 2 q x (q x v)
             let c1 = (qy * z - qz * y, qz * x - qx * z, qx * y - qy * x);
             let c2 = (qy * c1.2 - qz * c1.1, qz * c1.0 - qx * c1.2, qx * c1.1 - qy * c1.0);
+            cart_stored = false;
             cart = RC::Valid(
                 x + 2.0 * w * c1.0 + 2.0 * c2.0 + p.trans[0],
                 y + 2.0 * w * c1.1 + 2.0 * c2.1 + p.trans[1],
@@ -219,7 +228,7 @@ pub fn view(raw: &[Val], proto: &[Rec], meta: &m::CloudMeta, o: &Opts) -> Result
             );
         }
     }
-    Ok(RefPoint { cart, sph, cart_from_sph_dir, sph_from_cart_dir, color, intensity, row, col })
+    Ok(RefPoint { cart, sph, cart_from_sph_dir, sph_from_cart_dir, cart_stored, color, intensity, row, col })
 }
 
 fn close(a: f64, b: f64, rel: f64) -> bool {
@@ -252,7 +261,7 @@ fn finite3(a: f64, b: f64, c: f64) -> bool {
 
 pub fn compare(exp: &RefPoint, got: &Point, tol: f64) -> Option<String> {
     let c_ok = match (&exp.cart, &got.cartesian) {
-        (RC::Valid(a, b, c), CC::Valid { .. }) | (RC::Dir(a, b, c), CC::Direction { .. }) if !finite3(*a, *b, *c) => true,
+        (RC::Valid(a, b, c), CC::Valid { .. }) | (RC::Dir(a, b, c), CC::Direction { .. }) if !finite3(*a, *b, *c) && !exp.cart_stored => true,
         (RC::Valid(a, b, c), CC::Valid { x, y, z }) | (RC::Dir(a, b, c), CC::Direction { x, y, z }) => close(*a, *x, tol) && close(*b, *y, tol) && close(*c, *z, tol),
         (RC::Invalid, CC::Invalid) => true,
         (RC::Dir(..), CC::Invalid) if exp.cart_from_sph_dir => true,
@@ -357,7 +366,10 @@ pub fn check_cloud(bytes: &[u8], ci: usize, proto: &[Rec], meta: &m::CloudMeta, 
 
 fn build_scene(ctx: &Ctx) -> m::Scene {
     let coords = ctx.pick("coords", 3); // 0 cartesian, 1 spherical, 2 both
-    let pose = ctx.pick("pose", POSES.len());
+    // the last option: the cloud has no pose element at all
+    let pose = ctx.pick("pose", POSES.len() + 1);
+    // one coordinate of one point is not finite (float coordinates only)
+    let special = ctx.choose("non-finite-coordinate", 4);
     let no_cstate = ctx.flag("no-cartesian-state");
     let no_sstate = ctx.flag("no-spherical-state");
     let no_colour = ctx.flag("no-colour");
@@ -460,10 +472,20 @@ fn build_scene(ctx: &Ctx) -> m::Scene {
             points[pos][k] = Val::Int(value);
         }
     }
+    if special > 0 {
+        let (name, value, pos) = [("cartesianY", f64::INFINITY, 0usize), ("cartesianX", f64::NAN, 3), ("sphericalRange", f64::NEG_INFINITY, 6)][special - 1];
+        if let Some(k) = proto.iter().position(|r| r.name == name) {
+            match proto[k].ty {
+                Ty::F64 { .. } => points[pos][k] = Val::F64(value),
+                Ty::F32 { .. } => points[pos][k] = Val::F32(value as f32),
+                _ => {}
+            }
+        }
+    }
     let mut s = crate::scenes::scene(0);
     s.clouds.clear();
     s.clouds.push(m::Cloud {
-        meta: m::CloudMeta { guid: Some("c".into()), pose: Some(m::Pose { rot: POSES[pose].0, trans: POSES[pose].1 }), ..Default::default() },
+        meta: m::CloudMeta { guid: Some("c".into()), pose: POSES.get(pose).map(|p| m::Pose { rot: p.0, trans: p.1 }), ..Default::default() },
         proto,
         points,
         records: n as u64,
